@@ -109,7 +109,8 @@ def run(ctx, progs):
 
 
 def in_U(short):
-    return short in U or any(short.startswith(p) for p in U_PREFIX)
+    # a closure inside a reviewed fork belongs to that fork
+    return short in U or any(short.startswith(p) for p in U_PREFIX) or short.split("::{closure#")[0] in U
 
 
 def cfgdiff2(ctx, pa, pb, cfg):
